@@ -229,3 +229,35 @@ def scalar_getvalue(h):
                     if got != exp:
                         return {"reproduced": True, "call": "%r.GetValue(%r)" % (s, u), "observed": got, "expected": exp}
     return {"reproduced": False}
+
+
+@probe("scalar_order")
+def scalar_order(h):
+    """C08: <, <=, >, >= between Scalars agree with comparing the physical amounts"""
+    import operator
+    from barril.units import Scalar
+
+    ops = {"lt": operator.lt, "le": operator.le, "gt": operator.gt, "ge": operator.ge}
+    names = [h["variant"][0]] if h.get("variant") and h["variant"][0] in ops else list(ops)
+    pairs = [
+        (Scalar(1.0, "m"), Scalar(100.0, "cm")),
+        (Scalar(100.0, "cm"), Scalar(1.0, "m")),
+        (Scalar(1.0, "m"), Scalar(1.0, "m")),
+        (Scalar(1.0, "m"), Scalar(150.0, "cm")),
+        (Scalar(2.0, "m"), Scalar(150.0, "cm", "depth")),
+        (Scalar(0.0, "degC"), Scalar(273.15, "K")),
+        (Scalar(1.0, "h"), Scalar(30.0, "min")),
+    ]
+    for n in names:
+        for a, b in pairs:
+            db = a.GetUnitDatabase()
+            pa = a.GetValue()
+            pb = db.Convert(a.GetQuantityType(), b.GetUnit(), a.GetUnit(), b.GetValue())
+            exp = ops[n](pa, pb)
+            try:
+                got = ops[n](a, b)
+            except Exception as e:
+                got = repr(e)
+            if got != exp:
+                return {"reproduced": True, "call": "%r %s %r" % (a, n, b), "observed": got, "expected": exp}
+    return {"reproduced": False}
